@@ -172,6 +172,21 @@ PROPS = {
         trusted=["modelled, not verified: archive/zip codec, the real file system (os.Create/MkdirAll/Walk); path/filepath.Clean/Join/Rel are modelled lexically (`cleanAbs`) and compared with the real functions by the run; entry names are split at '/' by the driver"],
         explanation="C20.confined (any archive: everything created lies inside the destination), escaping_entry_rejected, roundtrip (exactly the selected files with path and content), target_of_entryName; legacy_escapes is the kernel-checked witness of D11",
     ),
+    "C02": dict(
+        generated=True,
+        lean=["GolibsVerif.Props.C02Spec", "GolibsVerif.Props.Lin", "GolibsVerif.Props.C03"],
+        seq=[],
+        go_cmds=("seq", "conc"),
+        facts={"inmem.single_section_methods": ["CasByVersion", "Create", "Delete", "Get", "GetMany", "ListKeys", "Put", "PutMany"],
+               "inmem.other_methods": ["WaitForVersionChange"]},
+        conc=[dict(comp="kvconc-inmem", driver="kvlin", decisive=lambda d: d["op"].startswith("mon C02")),
+              dict(comp="kvconc-redis", driver="kvlin", decisive=lambda d: d["op"].startswith("mon C02"))],
+        rule="cases = concurrent histories: 2-4 free-running threads x 2-5 operations over keys {a (75%), b} drawn from {Create, Get, Put, CasByVersion (with the version the thread saw last, or a never-issued one), Delete, GetMany with a repeated key, PutMany}, with staggered starts; in-memory: every operation's critical section is stamped by the instrumented lock and the section order is the linearization candidate; Redis (miniredis): a witness order is searched by the harness, plus 6 forced WATCH/EXEC races (a go-redis hook stops a CAS between its GET and its EXEC while another client writes); every history is emitted in witness order with invocation/response stamps and RE-VALIDATED by the Lean driver against Kv.Spec (real-time order + legality); non-trivial = two operations on one key overlapped in real time and one was a write; distinct by hash of the witness-ordered history",
+        assumptions=["WaitForVersionChange is excluded here (C07)", "no expiries in the concurrent runs (expiry is C06)", "Redis: each single command is atomic and EXEC after WATCH fails iff the key changed (miniredis / Redis semantics)"],
+        trusted=["modelled, not verified: sync.Mutex (a critical section is atomic and lies between the call's invocation and response), go-redis, miniredis", "skeleton fact regenerated from inmem.go: every exported method except WaitForVersionChange is `s.lock.Lock(); defer s.lock.Unlock()`",
+                 "the witness search (Go transcription of the contract) is untrusted: the Lean driver validates every witness"],
+        explanation="LinThm.order_is_sequential / order_respects_real_time (any object whose operations take effect in one atomic step is linearizable in step order) + C03 refinements + C02 contract facts for all histories (fresh_versions, cas_same_version_at_most_once, racing_creators_one_winner, loser_changes_nothing). For Redis the multi-command operations (Create retry loop, CAS WATCH/EXEC retry loop) are covered by per-history Lean-validated witnesses, not by an unbounded theorem",
+    ),
 }
 
 # ------------------------------------------------------------------------------------------------
@@ -199,6 +214,7 @@ MANIFEST_TEXT = {
 }
 
 MANIFEST_TEXT.update({
+    "C02": _t("Lean: generic theorem that an object whose operations each take effect in one atomic step is linearizable in step order (real-time respecting, sequentially legal), contract theorems for all histories (fresh versions, at most one CAS winner per version, one winning creator, losers change nothing); in-memory backend: regenerated skeleton fact (each method = one lock region) + instrumented critical-section order replayed by the Lean driver; Redis: every explored concurrent history gets a linearization witness that the Lean driver validates against the contract, incl. forced WATCH/EXEC races. Unbounded for the in-memory backend; per-history certification for the Redis multi-command operations", "Lean 4 linearizability theorem for atomic-step objects + contract proofs + Lean-validated linearization witnesses of real concurrent histories"),
     "C20": _t("Lean proof on a lexical path / small file-system model that UnzipToFolder creates files and directories only inside the destination for ANY archive, and that ZipFolder∘UnzipToFolder reproduces exactly the selected files (path and content); tied to files.go by a differential run on a sandboxed real file system (hostile archives, random trees, all filter/recursive/spelling combinations) with Go-side confinement and round-trip monitors", "Lean 4 proofs over a path/file-system model + model/code correspondence on the real file system"),
     "C01": _t("Lean proof of mutual exclusion for the N-process transition system of kvlock.go (any number of goroutines/Lockers/providers, every interleaving at storage-call granularity, cancellation anywhere, unbounded request-lost/reply-lost faults) under the explicit lease assumption; tied to the code by trace refinement: real kvsLock goroutines run under a controlled scheduler and every recorded trace is replayed through the executable model, which is proved sound w.r.t. the transition relation (C01Exec)", "Lean 4 inductive-invariant proof over an N-process transition system + trace refinement of real executions"),
     "C04": _t("Lean proofs on fault-free runs: no residue at quiescence, token/counter exact, no orphan record, deadlock freedom (some caller inside a call can always move when nobody holds), hand-off enabledness, no acquisition after shutdown, failure paths restore the Locker; tie as C01 plus Go-side residue / stuck monitors. Eventual service of every caller rests on a fairness assumption (not mechanised)", "Lean 4 invariant + enabledness proofs + trace refinement of real executions"),
@@ -206,7 +222,6 @@ MANIFEST_TEXT.update({
 })
 
 NOT_CLAIMED = {
-    "C02": "in progress: contract-level theorems proved (Props/C02Spec.lean); linearizability tie for the concurrent backends not built yet",
     "C07": "in progress (waiter small-step model + tie not built yet)",
     "C09": "in progress (concurrent LRU model + tie not built yet)",
     "C13": "in progress (worker-pool model + tie not built yet)",
